@@ -306,12 +306,15 @@ def xtElems (t : Ty) : List Val → Script → Option (List XT × Script)
        | some (es, s'') => some (e :: es, s''))
 end
 
-/-- length octets in the form selected by `c`: 0 minimal, 1 long form, 2.. long form with leading zeros -/
+/-- length octets in the form selected by `c`: 0 minimal, 1 long form, 2.. long form with
+    `(c / 4) % 120 + 1` redundant leading zero octets (X.690 8.1.3.5 allows up to 126 subsequent
+    octets in all) -/
 def lenForm (c : Nat) (n : Nat) : Bytes :=
   if c % 4 = 0 then len n
   else
     let ds := digitsBE 256 n
-    let ds := List.replicate (if c % 4 = 1 then 0 else c % 4 - 1) 0 ++ ds
+    let zeros := if c % 4 = 1 then 0 else min ((c / 4) % 120 + 1) (126 - ds.length)
+    let ds := List.replicate zeros 0 ++ ds
     UInt8.ofNat (128 + ds.length) :: ds.map UInt8.ofNat
 
 /-- rotate a list: a cheap family of permutations -/
